@@ -9,6 +9,7 @@ import DL.Model.Output
 import DL.Model.GooFit
 import DL.Gen.Sinks
 import DL.Gen.SpinTable
+import DL.Lemmas.AmpNodes
 namespace DL
 
 /-- when every output call goes through `printer`, the string returned on request is exactly what is
@@ -57,5 +58,46 @@ theorem C19_distinct (s a b : String) (h : a ≠ b) : s ++ "_" ++ a ≠ s ++ "_"
   have := congrArg String.toList e
   simp only [String.toList_append] at this
   exact String.ext (List.append_cancel_left this)
+
+/-- C19 (self-contained): every particle that occurs anywhere in an amplitude returned by a read -
+    in particular every resonance whose mass and width symbols the emitted lineshapes use - has been
+    recorded by that same read in the class-level set from which the declarations are written -/
+theorem C19_declared (pol : ResetPolicy) (lookup : String → Option String) (st : RState) (stmts : List AStmt)
+    (out : ReadOut) (st' : RState) (h : readAmpgen pol lookup st stmts = .ok (out, st')) :
+    ∀ line ∈ out.lines, ∀ p ∈ nodesOf line, p ∈ st'.allParticles := by
+  unfold readAmpgen at h
+  split at h
+  · split at h
+    · cases h
+    · simp only at h
+      split at h
+      · cases h
+      · rename_i built hb
+        split at h
+        · cases h
+        · rename_i expanded he
+          simp only [Except.ok.injEq, Prod.mk.injEq] at h
+          obtain ⟨rfl, rfl⟩ := h
+          intro line hl p hp
+          simp only [List.mem_flatten, List.mem_map] at hl
+          obtain ⟨o, ⟨r, hr, rfl⟩, hlo⟩ := hl
+          obtain ⟨top, htop, hftop⟩ := mapM_except_mem _ _ _ he r hr
+          obtain ⟨o', fi⟩ := r
+          have htop' : top ∈ built.map (·.1) := (List.mem_filter.mp htop).1
+          -- p is a particle of one of the chains built from the lines of this file
+          have hsrc : ∃ l ∈ built.map (·.1), p ∈ nodesOf l := by
+            rcases expandLines_nodes _ 64 top o' fi hftop line hlo p hp with h1 | h1
+            · exact ⟨top, htop', h1⟩
+            · exact h1
+          obtain ⟨l, hlm, hpl⟩ := hsrc
+          simp only [List.mem_map] at hlm
+          obtain ⟨b, hbm, rfl⟩ := hlm
+          obtain ⟨aline, _, hfa⟩ := mapM_except_mem _ _ _ hb b hbm
+          obtain ⟨bc, bs⟩ := b
+          have hnodes := chainOfLine_nodes lookup _ aline bc bs hfa
+          apply mem_addSet
+          simp only [List.mem_flatten, List.mem_map]
+          exact ⟨bs, ⟨(bc, bs), hbm, rfl⟩, by rw [← hnodes]; exact hpl⟩
+  · cases h
 
 end DL
